@@ -1,12 +1,13 @@
 /-
 The whole server on one datagram — `HandleMsg4/6` composed with the models of the configured
-built-in plugins (Model/System.lean). Property theorems only (proofs in Proofs/System.lean).
+built-in plugins (Model/System.lean). Property theorems only (proofs in Proofs/System.lean
+and Proofs/System6.lean).
 
 What is new against C11/C12/C15 in Props/: no hypothesis about the handlers is left. For every
 chain of option plugins, `server_id` and `file`, in any order and with any configuration the
 models accept, the reply that is sent satisfies the per-datagram properties.
 -/
-import CoreDhcp.Proofs.System
+import CoreDhcp.Proofs.System6
 namespace CoreDhcp
 open Sys
 
@@ -137,5 +138,114 @@ example :
   subst he
   simp [owned4] at hc ⊢
   omega
+
+/-! ## DHCPv6 with `prefix` in the chain -/
+
+/-- the option codes a DHCPv6 element may add, replace or remove: `Sys.owned6` (Proofs/System6.lean) —
+dns 23, searchdomains 24, nbp 59 and 60, server_id 2, file 3 (IA_NA), prefix 25 (IA_PD); sleep none -/
+example : owned6 (.plug (.nbp ⟨[], none⟩)) = [59, 60] ∧ owned6 (.file []) = [3] ∧ owned6 (.plug (.serverid [])) = [2] ∧
+    owned6 (.pd []) = [25] ∧ owned6 (.plug (.sleep 0)) = [] ∧ owned6 (.plug (.dns [])) = [23] ∧
+    owned6 (.plug (.search [])) = [24] :=
+  ⟨rfl, rfl, rfl, rfl, rfl, rfl, rfl⟩
+
+/-- Frame (DHCPv6): the options of a code no element of the chain owns are, in the reply that is sent, exactly (same
+values, same order, same multiplicity) those of the prepared reply `stub6`. -/
+theorem SYS_frame6 (bound : Nat) (oob : Option Nat) (src : Addr) (chain : List Elem6) (d : Sys.Pkt6) (m : Sys.Msg6)
+    (r0 : Sys.Resp6) (hm : d.msg = some m) (h0 : Sys.stub6 m = some r0)
+    (layers : List Layer6) (resp : Sys.Resp6) (ifidx : Option Nat)
+    (hs : serve6 bound oob src chain (some d) = .send layers resp ifidx) (c : Nat)
+    (hc : ∀ e ∈ chain, c ∉ owned6 e) :
+    resp.opts.filter (fun o => o.1 == c) = r0.opts.filter (fun o => o.1 == c) :=
+  sys_frame6 bound oob src chain d m r0 hm h0 layers resp ifidx hs c hc
+
+/-- non-vacuity of `SYS_frame6`: a SOLICIT with Rapid Commit asking for the DNS servers, through `server_id`, `dns`,
+`prefix` and `file`: a REPLY is sent, no element owns codes 1 and 14, the Client-ID and Rapid Commit options are
+those of the prepared reply; options 2, 23 and 25 were added -/
+example :
+    let m : Sys.Msg6 := ⟨1, 7, [(1, [0, 3, 0, 1, 2, 0, 0, 0, 0, 1]), (14, []), (6, [0, 23]), (25, [0, 0, 0, 1, 0, 0, 0, 0, 0, 0, 0, 0])]⟩
+    let d : Sys.Pkt6 := ⟨[], some m, none⟩
+    let chain : List Elem6 := [.plug (.serverid [0, 3, 0, 1, 2, 0, 0, 0, 0, 9]), .plug (.dns [[32, 1, 13, 184, 0, 0, 0, 0, 0, 0, 0, 0, 0, 0, 0, 83]]),
+      .pd [⟨[0, 0, 0, 1], []⟩], .file []]
+    (∀ e ∈ chain, 1 ∉ owned6 e ∧ 14 ∉ owned6 e) ∧
+    ∃ r0 resp, Sys.stub6 m = some r0 ∧ serve6 0 none ⟨0x20010db800000000#64, 1#64⟩ chain (some d) = .send [] resp none ∧
+      resp.opts.filter (fun o => o.1 == 1) = [(1, [0, 3, 0, 1, 2, 0, 0, 0, 0, 1])] ∧
+      resp.opts.filter (fun o => o.1 == 14) = [(14, [])] ∧ resp.opts.length = 5 := by
+  refine ⟨?_, _, _, rfl, rfl, rfl, rfl, rfl⟩
+  intro e he
+  simp only [List.mem_cons, List.not_mem_nil, or_false] at he
+  rcases he with rfl | rfl | rfl | rfl <;> simp [owned6]
+
+/-- C08 end to end: with `prefix` in the chain (once), reached (nothing before it ends the chain), whatever else is
+configured before and after it, every reply that is sent carries exactly the IA_PD options `prefix` built — one per
+`PdAns`, in order, nothing added, changed or removed by the other plugins. -/
+theorem SYS_pd_delivered6 (bound : Nat) (oob : Option Nat) (src : Addr) (pre post : List Elem6) (out : List PdAns)
+    (d : Sys.Pkt6) (hpre : pre.all neverStops6 = true)
+    (hone : (pre ++ post).all (fun e => !isPd e) = true)
+    (layers : List Layer6) (resp : Sys.Resp6) (ifidx : Option Nat)
+    (hs : serve6 bound oob src (pre ++ .pd out :: post) (some d) = .send layers resp ifidx) :
+    resp.opts.filter (fun o => o.1 == 25) = out.map (fun a => (25, encIAPD a)) :=
+  sys_pd_delivered6 bound oob src pre post out d hpre hone layers resp ifidx hs
+
+/-- non-vacuity of `SYS_pd_delivered6`: a relayed REQUEST, `dns` and `file` before `prefix`, `nbp` after it; the
+reply goes back through the relay on the pinned interface and carries the two IA_PD options -/
+example :
+    let m : Sys.Msg6 := ⟨3, 7, [(1, [0, 3, 0, 1, 2, 0, 0, 0, 0, 1]), (6, [0, 23, 0, 59])]⟩
+    let l : Layer6 := ⟨12, ⟨0x20010db800000000#64, 1#64⟩, ⟨0xfe80000000000000#64, 2#64⟩, none, none⟩
+    let d : Sys.Pkt6 := ⟨[l], some m, none⟩
+    let pre : List Elem6 := [.plug (.dns [[32, 1, 13, 184, 0, 0, 0, 0, 0, 0, 0, 0, 0, 0, 0, 83]]), .file []]
+    let post : List Elem6 := [.plug (.nbp ⟨[104], none⟩)]
+    let out : List PdAns := [⟨[0, 0, 0, 1], [(⟨⟨0x20010db800010000#64, 0#64⟩, 56⟩, 3600)]⟩, ⟨[0, 0, 0, 2], []⟩]
+    pre.all neverStops6 = true ∧ (pre ++ post).all (fun e => !isPd e) = true ∧
+    ∃ resp, serve6 3 none ⟨0xfe80000000000000#64, 2#64⟩ (pre ++ .pd out :: post) (some d) = .send (mirror [l]) resp (some 3) ∧
+      resp.opts.map (·.1) = [1, 23, 25, 25, 59] := ⟨rfl, rfl, _, rfl, rfl⟩
+
+/-- `hpre` is needed: `nbp` before `prefix` ends the chain, the reply is sent without any IA_PD -/
+example :
+    let m : Sys.Msg6 := ⟨3, 7, [(1, [0, 3, 0, 1, 2, 0, 0, 0, 0, 1])]⟩
+    let d : Sys.Pkt6 := ⟨[], some m, none⟩
+    ∃ resp, serve6 3 none ⟨0x20010db800000000#64, 2#64⟩ ([.plug (.nbp ⟨[104], none⟩)] ++ .pd [⟨[0, 0, 0, 1], []⟩] :: []) (some d) =
+        .send [] resp none ∧ resp.opts.filter (fun o => o.1 == 25) = [] := ⟨_, rfl, rfl⟩
+
+/-- The encoding loses nothing: a client that decodes the IA_PD body (`Sys.decIAPD`, Model/System.lean: IAID, T1,
+T2, then IAPrefix sub-options, a Status Code sub-option is skipped) gets exactly the IAID and the blocks with their
+lifetimes. -/
+theorem SYS_pd_roundtrip (a : PdAns) (hi : a.iaid.length = 4)
+    (hb : ∀ p ∈ a.pfxs, p.1.len < 256 ∧ p.2 < 2 ^ 32) : decIAPD (encIAPD a) = some a :=
+  sys_pd_roundtrip a hi hb
+
+/-- non-vacuity of `SYS_pd_roundtrip`: the bytes of an IA_PD with one /56 for an hour, and of one without prefix
+(NoPrefixAvail); a lifetime that does not fit 32 bits is not read back (the hypothesis is needed) -/
+example :
+    let a : PdAns := ⟨[0, 0, 0, 1], [(⟨⟨0x20010db800010000#64, 0#64⟩, 56⟩, 3600)]⟩
+    encIAPD a = [0, 0, 0, 1, 0, 0, 0, 0, 0, 0, 0, 0, 0, 26, 0, 25, 0, 0, 14, 16, 0, 0, 14, 16, 56,
+      32, 1, 13, 184, 0, 1, 0, 0, 0, 0, 0, 0, 0, 0, 0, 0] ∧ decIAPD (encIAPD a) = some a ∧
+    encIAPD ⟨[0, 0, 0, 2], []⟩ = [0, 0, 0, 2, 0, 0, 0, 0, 0, 0, 0, 0, 0, 13, 0, 2, 0, 6] ∧
+    decIAPD (encIAPD ⟨[0, 0, 0, 2], []⟩) = some ⟨[0, 0, 0, 2], []⟩ ∧
+    decIAPD (encIAPD ⟨[0, 0, 0, 1], [(⟨⟨0x20010db800010000#64, 0#64⟩, 56⟩, 2 ^ 32)]⟩) =
+      some ⟨[0, 0, 0, 1], [(⟨⟨0x20010db800010000#64, 0#64⟩, 56⟩, 0)]⟩ := by
+  refine ⟨?_, ?_, ?_, ?_, ?_⟩ <;> decide
+
+/-- Every IA_PD of the request is answered on the wire by exactly one IA_PD option, with the same IAID, in order:
+`PState.handleMsg` (Model/Prefix.lean) answers `rs`, `prefix` is the chain element `.pd (pdOf rs)`. -/
+theorem SYS_pd_answers_each (bound : Nat) (oob : Option Nat) (src : Addr) (pre post : List Elem6)
+    (s s' : PState) (c : ClientKey) (iapds : List IAPDReq) (now : Int) (cs cs' : List (Option Nat)) (rs : List IAPDResp)
+    (hh : s.handleMsg (some c) iapds now cs = some (s', some rs, cs'))
+    (d : Sys.Pkt6) (hpre : pre.all neverStops6 = true) (hone : (pre ++ post).all (fun e => !isPd e) = true)
+    (layers : List Layer6) (resp : Sys.Resp6) (ifidx : Option Nat)
+    (hs : serve6 bound oob src (pre ++ .pd (pdOf rs) :: post) (some d) = .send layers resp ifidx) :
+    (resp.opts.filter (fun o => o.1 == 25)).map (fun o => o.2.take 4) = iapds.map (fun q => Plug.be 4 q.iaid) :=
+  sys_pd_answers_each bound oob src pre post s s' c iapds now cs cs' rs hh d hpre hone layers resp ifidx hs
+
+/-- non-vacuity of `SYS_pd_answers_each`: a pool of four /62 in a /60, a client asking for two IA_PD (IAID 1 and
+70000): the state machine answers both, the reply is sent and carries two IA_PD options with those IAIDs -/
+example : ∃ a s' rs cs' resp, A6.new ⟨⟨0x20010db800000000#64, 0#64⟩, 60, 62⟩ = .ok a ∧
+    (⟨a, []⟩ : PState).handleMsg (some [0, 3, 0, 1, 2, 0, 0, 0, 0, 1]) [⟨1, []⟩, ⟨70000, [.empty]⟩] 10 [some 0, some 1] =
+      some (s', some rs, cs') ∧
+    serve6 3 none ⟨0x20010db800000000#64, 2#64⟩ ([.plug (.sleep 0)] ++ .pd (pdOf rs) :: [.plug (.search [])])
+      (some ⟨[], some ⟨3, 7, [(1, [0, 3, 0, 1, 2, 0, 0, 0, 0, 1])]⟩, none⟩) = .send [] resp none ∧
+    (resp.opts.filter (fun o => o.1 == 25)).map (fun o => o.2.take 4) = [[0, 0, 0, 1], [0, 1, 17, 112]] ∧
+    (resp.opts.filter (fun o => o.1 == 25)).map (fun o => (decIAPD o.2).map (fun p => p.pfxs.map (·.2))) =
+      [some [3600], some [3600]] :=
+  ⟨_, _, _, _, _, rfl, rfl, rfl, rfl, rfl⟩
 
 end CoreDhcp
